@@ -224,7 +224,7 @@ def run(ctx, focus, nseq=None, depth=4, mode='all'):
     for x in r.jsons:
         by.setdefault(x['sid'], []).append(x)
     hists = [sorted(v, key=lambda x: x['step']) for k, v in sorted(by.items())]
-    res = core.parmap(_history, [(h, ctx.tmp, mode) for h in hists], procs=16, chunksize=1)
+    res = core.parmap(_history, [(h, ctx.tmp, mode) for h in hists], procs=16, chunksize=1, min_parallel=4)
     total = agree = 0
     for h, obs in zip(hists, res):
         for k, (s, o) in enumerate(zip(h, obs)):
